@@ -15,6 +15,8 @@ import time
 from . import extract
 from .rsparse import ExtractError
 
+VERIF = os.path.dirname(os.path.dirname(os.path.abspath(__file__)))
+
 # messages Verus emits when the SMT solver rejects an obligation
 VERIFICATION_MSG = re.compile(
     r'^(postcondition not satisfied|precondition not satisfied|assertion failed|invariant not satisfied'
@@ -74,6 +76,27 @@ def census(text, metas=()):
 
 
 def run_group(name, outdir, rlimit=None, canary_calls=None, timeout=600):
+    """Runs in a private working directory (two checks may run the same group at the same time), then publishes the
+    generated file, the extraction log and the verifier log into `outdir` atomically."""
+    import shutil, tempfile
+    os.makedirs(os.path.join(VERIF, '.build', 'vwork'), exist_ok=True)
+    work = tempfile.mkdtemp(prefix=name + '-', dir=os.path.join(VERIF, '.build', 'vwork'))
+    try:
+        res = _run_group_in(name, work, rlimit, canary_calls, timeout)
+        os.makedirs(outdir, exist_ok=True)
+        for fn in os.listdir(work):
+            if fn.startswith(name + '.'):
+                tmp = os.path.join(outdir, '.%s.%d.tmp' % (fn, os.getpid()))
+                shutil.copyfile(os.path.join(work, fn), tmp)
+                os.replace(tmp, os.path.join(outdir, fn))
+        if res.get('generated'):
+            res['generated'] = os.path.join(outdir, os.path.basename(res['generated']))
+        return res
+    finally:
+        shutil.rmtree(work, ignore_errors=True)
+
+
+def _run_group_in(name, outdir, rlimit=None, canary_calls=None, timeout=600):
     t0 = time.time()
     # soft = the verifier could not be asked because the code changed shape (lost anchor, construct outside the supported subset);
     # hard = the verifier was asked and gave no verdict (rlimit, crash) or a guard failed
